@@ -2,6 +2,7 @@
 from __future__ import annotations
 import z3
 from .types import parse_type, is_ref
+from .qf import qforall
 from .state import V, NONE, State, Unsupported, PathEnd, PyRaise, static, is_static, _key
 from .builtins import BuiltinMixin
 
@@ -61,7 +62,7 @@ def lib_as_completed(eng, st, args, kw, node):
     src = st.seq_elems(fs)
     arr = eng.ctx.fresh_z("completed", src.sort())
     k = z3.Int(eng.ctx.fresh_name("k"))
-    st.assume(z3.ForAll([k], z3.Implies(z3.And(k >= 0, k < n), arr[k] == src[pi(k)]), patterns=[arr[k]]))
+    st.assume(qforall([k], z3.Implies(z3.And(k >= 0, k < n), arr[k] == src[pi(k)]), patterns=[arr[k]]))
     eng.ctx.tags.add("AX_concurrent_futures")
     return st.new_seq(fs.t[1], "list", n, arr, "completed")
 
@@ -78,8 +79,8 @@ def completion_instance(eng, st, fs):
         inv = lambda x: Q(fs.z, x)
         k, j = z3.Ints(f"{nm}_k {nm}_j")
         inr = lambda x: z3.And(x >= 0, x < n)
-        ax = [z3.ForAll([k], z3.Implies(inr(k), z3.And(inr(pi(k)), inv(pi(k)) == k)), patterns=[pi(k)]),
-              z3.ForAll([j], z3.Implies(inr(j), z3.And(inr(inv(j)), pi(inv(j)) == j)), patterns=[inv(j)])]
+        ax = [qforall([k], z3.Implies(inr(k), z3.And(inr(pi(k)), inv(pi(k)) == k)), patterns=[pi(k)]),
+              qforall([j], z3.Implies(inr(j), z3.And(inr(inv(j)), pi(inv(j)) == j)), patterns=[inv(j)])]
         hit = (nm, pi, inv, ax)
         eng._axiom_cache[ck] = hit
     nm, pi, inv, ax = hit
@@ -104,7 +105,7 @@ def lib_np_argsort(eng, st, args, kw, node):
     asig, ainv = argsort_instance(eng, st, K, n)
     arr = eng.ctx.fresh_z("argsort", z3.ArraySort(z3.IntSort(), z3.IntSort()))
     k = z3.Int(eng.ctx.fresh_name("k"))
-    st.assume(z3.ForAll([k], z3.Implies(z3.And(k >= 0, k < n), arr[k] == asig(k)), patterns=[arr[k]]))
+    st.assume(qforall([k], z3.Implies(z3.And(k >= 0, k < n), arr[k] == asig(k)), patterns=[arr[k]]))
     eng.ctx.tags.add("AX_numpy_argsort")
     eng.ctx.tags.add("A_nonan_costs")
     return st.new_seq(("int",), "nd", n, arr, "argsort")
@@ -121,17 +122,17 @@ def argsort_instance(eng, st, K, n):
         inv = lambda x: G(K, n, x)
         k, k2, j = z3.Ints(f"{nm}_k {nm}_k2 {nm}_j")
         inr = lambda x: z3.And(x >= 0, x < n)
-        ax = [z3.ForAll([k], z3.Implies(inr(k), z3.And(inr(sig(k)), inv(sig(k)) == k)), patterns=[sig(k)]),
-              z3.ForAll([j], z3.Implies(inr(j), z3.And(inr(inv(j)), sig(inv(j)) == j)), patterns=[inv(j)]),
-              z3.ForAll([k, k2], z3.Implies(z3.And(inr(k), inr(k2), k < k2), K[sig(k)] <= K[sig(k2)]),
+        ax = [qforall([k], z3.Implies(inr(k), z3.And(inr(sig(k)), inv(sig(k)) == k)), patterns=[sig(k)]),
+              qforall([j], z3.Implies(inr(j), z3.And(inr(inv(j)), sig(inv(j)) == j)), patterns=[inv(j)]),
+              qforall([k, k2], z3.Implies(z3.And(inr(k), inr(k2), k < k2), K[sig(k)] <= K[sig(k2)]),
                         patterns=[z3.MultiPattern(sig(k), sig(k2))])]
         # Lemma L1 (Lean-checked, lemmas/L1.lean): two non-decreasing arrangements of one finite multiset coincide,
         # hence the k-th key along argsort equals the k-th key along the stable sort, and the descending stable
         # arrangement is the reverse of the ascending one key-wise.
         inst = eng.sigma_instance(st, K, n)
         sa, sd = inst["asc"][0], inst["desc"][0]
-        ax.append(z3.ForAll([k], z3.Implies(inr(k), K[sig(k)] == K[sa(k)]), patterns=[sig(k), sa(k)]))
-        ax.append(z3.ForAll([k], z3.Implies(inr(k), K[sd(k)] == K[sa(n - 1 - k)]), patterns=[sd(k)]))
+        ax.append(qforall([k], z3.Implies(inr(k), K[sig(k)] == K[sa(k)]), patterns=[sig(k), sa(k)]))
+        ax.append(qforall([k], z3.Implies(inr(k), K[sd(k)] == K[sa(n - 1 - k)]), patterns=[sd(k)]))
         eng.ctx.tags.add("LEMMA_L1_sorted_arrangements_coincide")
         hit = (nm, sig, inv, ax)
         eng._axiom_cache[ck] = hit
@@ -340,7 +341,7 @@ def lib_np_random_randint(eng, st, args, kw, node):
     arr = eng.ctx.fresh_z("randints", z3.ArraySort(z3.IntSort(), z3.IntSort()))
     k = z3.Int(eng.ctx.fresh_name("k"))
     n = z3.If(size.z > 0, size.z, 0)
-    st.assume(z3.ForAll([k], z3.Implies(z3.And(k >= 0, k < n), z3.And(arr[k] >= lo.z, arr[k] < hi.z)), patterns=[arr[k]]))
+    st.assume(qforall([k], z3.Implies(z3.And(k >= 0, k < n), z3.And(arr[k] >= lo.z, arr[k] < hi.z)), patterns=[arr[k]]))
     return st.new_seq(("int",), "nd", z3.simplify(n), arr, "randints")
 
 
